@@ -70,6 +70,14 @@ func runC16(c *fw.Ctx) {
 
 func c16History(k *fw.K, B, D, O int) {
 	w, b := Shuffled(k.Rng, Unique(k.Rng, []int{O}, 0.2, 2)), Shuffled(k.Rng, Unique(k.Rng, []int{O}, 0.2, 2))
+	wScale, xScale := 1., 1.
+	if k.Rng.Intn(8) == 0 { // weights far below every "is it zero" threshold against features large enough for the product to matter
+		wScale, xScale = 1e-250, 1e300
+		k.Count("histories_with_weights_1e-250_and_features_1e300", 1)
+	}
+	for i := range w.Data {
+		w.Data[i] *= wScale
+	}
 	discipline := k.Rng.Intn(3) // 0: pointers taken once before the first Forward; 1: taken once after the first Forward; 2: fresh each time
 	nrep := 1 + k.Rng.Intn(4)
 	trackX := k.Rng.Intn(2) == 0
@@ -134,6 +142,9 @@ func c16History(k *fw.K, B, D, O int) {
 			call(func() { _, _ = fc.Forward(rt.MustLeaf(bad, false)) })
 		}
 		x = Shuffled(k.Rng, Unique(k.Rng, []int{B, D}, 0.2, 2))
+		for i := range x.Data {
+			x.Data[i] *= xScale
+		}
 		rx = rt.MustLeaf(x, track)
 		if track && k.Rng.Intn(3) == 0 { // the tracked input is itself the result of a shape operation on a tracked feature map
 			feat := rt.MustLeaf(ref.New([]int{B, D, 1}, x.Data), true)
@@ -241,6 +252,9 @@ func c16History(k *fw.K, B, D, O int) {
 		}
 		if which != 1 {
 			curW = Shuffled(k.Rng, Unique(k.Rng, []int{O}, 0.2, 2))
+			for i := range curW.Data {
+				curW.Data[i] *= wScale
+			}
 			*ws[0].Value = c16Param(k, curW)
 			log = append(log, "replace W")
 		}
@@ -279,7 +293,10 @@ func c16History(k *fw.K, B, D, O int) {
 		{Op: "leaf", Shape: curB.Shape, Data: curB.Data, Tracked: true},
 		{Op: "fc", In: []int{0, 1, 2}},
 	}
-	head := k.Rng.Intn(6)
+	head := k.Rng.Intn(7)
+	if xScale != 1 && (head == 3 || head == 4 || head == 6) {
+		head = head % 3 // a squared error of outputs around 1e50 overflows by construction, sin(1e50) is not a function of a rounded argument
+	}
 	exactTargets := func(shape []int) ref.Instr {
 		yv, _ := rt.Read(ry)
 		t := RandT(k.Rng, shape, -2, 2)
@@ -301,8 +318,10 @@ func c16History(k *fw.K, B, D, O int) {
 		prog = append(prog, ref.Instr{Op: "flatten", In: []int{3}, Dim: 0}, exactTargets([]int{B * O}), ref.Instr{Op: "mse", In: []int{4, 5}})
 	case 5:
 		prog = append(prog, ref.Instr{Op: "tanh", In: []int{3}})
+	case 6: // the layer's output feeds TWO branches that join again: 3*y + sin(y)
+		prog = append(prog, ref.Instr{Op: "scale", In: []int{3}, F: 3}, ref.Instr{Op: "sin", In: []int{3}}, ref.Instr{Op: "add", In: []int{4, 5}})
 	}
-	k.Count(fmt.Sprintf("backprops_head_%s", []string{"none", "flatten(1) keeping the shape", "reshape to the same shape", "squared error with exact fits", "MSE with exact fits", "tanh"}[head]), 1)
+	k.Count(fmt.Sprintf("backprops_head_%s", []string{"none", "flatten(1) keeping the shape", "reshape to the same shape", "squared error with exact fits", "MSE with exact fits", "tanh", "two branches that join"}[head]), 1)
 	vals, err := prog.Eval()
 	if err != nil {
 		k.Failf("harness: %v", err)
